@@ -569,12 +569,16 @@ def process(ctx, cases, items):
             nv += 1
         elif isinstance(v, tuple) and len(v) == 3 and v[0] == "S":
             sigs.setdefault(full[v[1] - 1]["id"], set()).add(v[2])
+        elif isinstance(v, tuple) and len(v) == 3 and v[0] == "C":
+            COVER[v[2]] = COVER.get(v[2], 0) + 1
     if res.out.count('<<"V"') + res.out.count('<< "V"') != nv:
         raise Machinery("judge output not fully parsed")
     for rid, cl in failed.items():
         c = {k: v for k, v in by_id[rid].items() if not k.startswith("_")}
         for clause in sorted(cl):
             sig = {"scope": rid.split(":")[0], "rank": len(c["lead"]) + 1, "pos": c["pos"], "via": c["via"]}
+            if "hist" in c:
+                sig["handle"] = c["handle_kind"]
             if clause.startswith("Norm") and "WholeArrayNorm" in sigs.get(rid, ()):
                 sig["shape"] = "WholeArrayNorm"
             layout_clause = clause in ("Accepts", "GradZeroOnBoundary") or clause.endswith("Value") or clause.startswith(("Shape_", "Norm", "DualPartialFaceDiff", "DualPartialGrad"))
@@ -583,6 +587,199 @@ def process(ctx, cases, items):
             if clause in ("NodeDistances", "FaceDistances", "GradValue") and "DistancesSwapped" in sigs.get(rid, ()):
                 sig["shape"] = "DistancesSwapped"
             ctx.violation(rid, clause, detail={"failed": sorted(cl), "dist_err": next((f.get("dist_err") for f in full if f["id"] == rid), None)}, replay=c, sig=sig)
+    return failed, full
+
+
+# ----------------------------------------------------------------------------- histories (EdgeHist.tla)
+COVER = {}
+HIST_TABLES = {"edge_face_distances": "efd", "edge_node_distances": "end", "edge_face_connectivity": "efc", "edge_node_connectivity": "enc"}
+HIST_CFG = (
+    "SPECIFICATION Spec\nCONSTANTS\n OpWritesTable = %s\n SliceKeepsTable = %s\n CopyAliases = FALSE\n MaxLen = %d\n MaxHandles = 2\n"
+    "INVARIANT TypeOK\nINVARIANT ReadsFresh\nPROPERTY OpsReadOnly\nCHECK_DEADLOCK FALSE\n"
+)
+
+
+def gen_histories(ctx, maxlen):
+    """Model-check the intended machine (reads fresh, operators read-only), dump = all histories of <= maxlen steps;
+    refute each mechanism knob and return the counterexample histories as directed ones."""
+    dump = os.path.join(ctx.work, "edge_hist")
+    r = ctx.tlc_ok(
+        "EdgeHist",
+        HIST_CFG % ("FALSE", "FALSE", maxlen),
+        what="history machine around the edge operators, intended mechanisms: every read fresh, operators read-only; all histories of <= %d steps" % maxlen,
+        dump=dump,
+        timeout=1200,
+    )
+    with open(dump + ".dump") as fh:
+        states = tlaval.parse_dump(fh.read())
+    os.remove(dump + ".dump")
+    hists = sorted({tuple(tuple(st) for st in s["hist"]) for s in states if len(s["hist"]) > 0})
+    if len(hists) != r.distinct - 1:
+        raise Machinery("history dump: %d histories for %d states" % (len(hists), r.distinct))
+    directed = []
+    import re
+
+    for knob, cfg in (("opWritesTable", HIST_CFG % ("TRUE", "FALSE", maxlen)), ("sliceKeepsTable", HIST_CFG % ("FALSE", "TRUE", maxlen))):
+        rr = ctx.tlc("EdgeHist", cfg, what="mechanism %s = TRUE must be refuted (ReadsFresh)" % knob, workers=1, timeout=600)
+        if rr.violated != "ReadsFresh":
+            raise Machinery("TLC did not refute mechanism %s: violated=%s" % (knob, rr.violated))
+        m = re.findall(r"/\\ hist = (<<.*>>)", rr.trace_text or rr.out)
+        if not m:
+            raise Machinery("no counterexample history for %s" % knob)
+        h = tlaval.parse(m[-1])
+        directed.append((knob, tuple(tuple(st) for st in h)))
+    ctx.note("mechanisms_refuted_by_tlc", {k: [list(st) for st in h] for k, h in directed})
+    return hists, directed
+
+
+def sel_indices(sel, nf):
+    k = max(1, nf // 2)
+    if sel == "low":
+        return list(range(0, k))
+    if sel == "high":
+        return list(range(nf - k, nf))  # leaves out lower-indexed neighbours
+    a = max(1, nf // 4)
+    return list(range(a, min(nf, a + k)))
+
+
+def _play(root, steps, structural_only):
+    """Replay the steps on a freshly built root grid; returns (handles, meta per handle, op results)."""
+    import numpy as np
+
+    ux = hux.import_ux()
+    g0, _ = build(root)
+    handles = [g0]
+    meta = [{"kind": "root"}]
+    ops = []
+    for st in steps:
+        kind, h = st[0], handles[st[1] - 1]
+        if kind == "slice":
+            idx = sel_indices(st[2], h.n_face)
+            handles.append(h.isel(n_face=idx))
+            meta.append({"kind": "slice", "sel": st[2], "sel_faces": idx, "parent": st[1] - 1})
+        elif kind == "copy":
+            handles.append(h.copy())
+            meta.append({"kind": "copy", "parent": st[1] - 1})
+        elif structural_only:
+            continue
+        elif kind == "read":
+            np.asarray(getattr(h, st[2]).values)
+        elif kind == "op":
+            ops.append((st[1] - 1, st[2], _apply_op(ux, h, st[2])))
+    return handles, meta, ops
+
+
+def _apply_op(ux, g, name):
+    import numpy as np
+
+    try:
+        if name == "diff_node":
+            d = ((np.arange(g.n_node) * 7) % 5 - 2).astype(float)
+            return np.asarray(ux.UxDataArray(d, dims=["n_node"], uxgrid=g).difference(destination="edge").values, dtype=float)
+        d = ((np.arange(g.n_face) * 5) % 7 - 3).astype(float)
+        a = ux.UxDataArray(d, dims=["n_face"], uxgrid=g)
+        if name == "diff_face":
+            return np.asarray(a.difference(destination="edge").values, dtype=float)
+        return np.asarray(a.gradient(normalize=(name == "gradient_norm")).values, dtype=float)
+    except Exception as e:  # noqa - recorded: compared with the fresh outcome
+        return "%s" % type(e).__name__
+
+
+def record_hist(case):
+    """Replay one history; after it read every table of every handle and compare with what freshly built grids
+    (same source, same selections, nothing read or computed before) report; returns one pipeline item per handle."""
+    import numpy as np
+
+    ux = hux.import_ux()
+    steps = case["hist"]
+    items = []
+    try:
+        handles, meta, ops = _play(case["root"], steps, False)
+        obs = [{t: np.array(getattr(g, t).values) for t in HIST_TABLES} for g in handles]
+        fh, _, _ = _play(case["root"], steps, True)
+        fobs = [{t: np.array(getattr(g, t).values) for t in HIST_TABLES} for g in fh]  # fresh tables first ...
+        fops = [_apply_op(ux, fh[h], name) for h, name, _ in ops]  # ... then fresh operators
+    except Machinery:
+        raise
+    except Exception as e:  # noqa
+        return [{"rec": {"id": case["id"] + "#0", "error": "%s: %s" % (type(e).__name__, str(e)[:200])}, "raw": {}}]
+
+    def same(a, b, floats):
+        if isinstance(a, str) or isinstance(b, str):
+            return isinstance(a, str) and isinstance(b, str) and a == b
+        if a.shape != b.shape:
+            return False
+        return bool(np.allclose(a, b, rtol=0.0, atol=1e-12, equal_nan=True)) if floats else bool(np.array_equal(a, b))
+
+    for hi, g in enumerate(handles):
+        mesh_rows, _, _ = hux.table(g.face_node_connectivity)
+        mesh = [[n for n in row if n >= 0] for row in mesh_rows]
+        lon = [float(x) for x in g.node_lon.values]
+        lat = [float(x) for x in g.node_lat.values]
+        rec = {"id": "%s#%d" % (case["id"], hi), "den": 1, "dtype": "float", "lead": [], "pos": 0, "lead_dims": [], "via": "topology",
+               "mesh": mesh, "n_node": len(lon), "xrows": [], "yrows": [], "handle": meta[hi]["kind"], "hist": [list(st) for st in steps]}  # fmt: skip
+        rec["edges"] = hux.table(obs[hi]["edge_node_connectivity"])[0]
+        rec["edge_faces"] = hux.table(obs[hi]["edge_face_connectivity"])[0]
+        rec["dist_dims"] = [[str(x) for x in g.edge_node_distances.dims], [str(x) for x in g.edge_face_distances.dims]]
+        rec["fresh"] = {
+            short: same(obs[hi][t], fobs[hi][t], t.endswith("distances")) for t, short in HIST_TABLES.items()
+        }
+        rec["ops"] = [{"op": name, "same": same(val, fops[j], True)} for j, (h, name, val) in enumerate(ops) if h == hi]
+        if meta[hi]["kind"] == "slice":
+            pm, _, _ = hux.table(handles[meta[hi]["parent"]].face_node_connectivity)
+            rec["parent_mesh"] = [[n for n in row if n >= 0] for row in pm]
+            rec["sel_faces"] = meta[hi]["sel_faces"]
+        raw = {
+            "units": [unit_of_lonlat(lo, la) for lo, la in zip(lon, lat)],
+            "centres": None,
+            "edge_node_distances": [float(x) for x in obs[hi]["edge_node_distances"].ravel()],
+            "edge_face_distances": [float(x) for x in obs[hi]["edge_face_distances"].ravel()],
+        }
+        items.append({"rec": rec, "raw": raw})
+    return items
+
+
+def hist_roots(rng):
+    """Partial meshes with boundary and interior edges (catalogue cuts, face order as defined so that 'high' drops
+    lower-indexed neighbours), one of them read through the MPAS dialect with supplied dvEdge / dcEdge."""
+    out = []
+    for name, cut, via in (("cuboctahedron", 3, "topology"), ("truncated_octahedron_split", 2, "topology"), ("cube", 5, "topology"), ("cuboctahedron", 5, "mpas_primal_truthful")):
+        e = catalog.entries(name=name, rot=0, cut=cut)[0]
+        c = cat_case(e, "root:%s/c%d:%s" % (name, cut, via), 0, rng, via=via, shuffle=False, layout={"pos": 0, "lead": []})
+        out.append(c)
+    return out
+
+
+def hist_cases(rng, hists, directed, roots, n_len3):
+    short = [h for h in hists if len(h) <= 2]
+    long_ = [h for h in hists if len(h) > 2]
+    pick = long_ if n_len3 is None or n_len3 >= len(long_) else [long_[i] for i in sorted(rng.sample(range(len(long_)), n_len3))]
+    chosen = list(dict.fromkeys([h for _, h in directed] + short + pick))
+    cases = []
+    for k, h in enumerate(chosen):
+        root = roots[k % len(roots)]
+        cases.append({"id": "hist:%d:%s" % (k, root["id"].split(":", 1)[1]), "root": root, "hist": [list(st) for st in h], "prop": PROP})
+    # the directed counterexamples of the refuted mechanisms on every root
+    for knob, h in directed:
+        for j, root in enumerate(roots):
+            cases.append({"id": "hist:%s:%d:%s" % (knob, j, root["id"].split(":", 1)[1]), "root": root, "hist": [list(st) for st in h] , "prop": PROP})
+    return cases
+
+
+def process_hist(ctx, hcases, nested):
+    """Flatten the per-handle items of the histories and send them through the emit / numeric / judge pipeline."""
+    items, pseudo = [], []
+    for c, its in zip(hcases, nested):
+        for it in its:
+            items.append(it)
+            pseudo.append({"id": it["rec"]["id"], "lead": [], "pos": 0, "via": "topology", "hist": c["hist"], "root": {k: v for k, v in c["root"].items() if not k.startswith("_")},
+                           "handle_kind": it["rec"].get("handle", "?"), "hist_id": c["id"]})  # fmt: skip
+    failed, full = {}, []
+    step = 3000
+    for a in range(0, len(items), step):
+        f, fl = process(ctx, pseudo[a : a + step], items[a : a + step])
+        failed.update(f)
+        full += fl
     return failed, full
 
 
@@ -784,6 +981,25 @@ def run(ctx):
     failed.update(f)
     fulls += full
 
+    # histories around the edge operators (EdgeHist.tla): tables read after any history are the grid's own fresh
+    # tables, on the grid itself, on subsets (incl. those leaving out lower-indexed neighbours) and on copies
+    COVER.clear()
+    hists, directed = gen_histories(ctx, 3)
+    roots = hist_roots(rng)
+    hcases = hist_cases(rng, hists, directed, roots, None if thorough else 450)
+    nested = pmap(record_hist, hcases)
+    hfailed, hfull = process_hist(ctx, hcases, nested)
+    failed.update(hfailed)
+    for need in ("DropsLowerNeighbour", "HasBoundary"):
+        if not COVER.get(need):
+            raise Machinery("history replay is vacuous: no handle with %s" % need)
+    ctx.note("histories_generated_by_tlc", len(hists))
+    ctx.note("histories_replayed", len(hcases))
+    ctx.note("history_handles_judged", len(hfull))
+    ctx.note("history_coverage", dict(COVER))
+    ctx.count(len(hfull), None)
+    for hc in hcases:
+        ctx.nontrivial.add(("hist", tuple(map(tuple, hc["hist"])), hc["root"]["id"]))
     # accuracy of tiny node distances against the exact closed form (reported, judged at 1e-9 rad absolute)
     acc = {}
     for c, it in zip(cases, items):
@@ -859,6 +1075,7 @@ def run(ctx):
         "edges whose two faces have identical corner sets (coincident centres) and all-constant rows under normalisation (0/0) are outside the property and not judged",
         "faces whose reference centre lies inside the library's pole-snap cap (|z| > 1 - 1e-8, i.e. within 1.4e-4 rad of a pole; C04's tolerance) have their centre reported AT the pole: their edges are left out of the centre-distance and gradient clauses",
         "fine meshes (edges 1e-3 .. 1e-6 rad): node distances judged at 1e-9 rad absolute against the exact closed form; the relative error of the spherical law of cosines is reported in the evidence, not judged; gradient tolerance widened to what 1e-9 rad on the distance allows",
+        "histories: 'equals what a fresh grid reports' compares with grids rebuilt from the same source by the same slice / copy steps with nothing read or computed before (bitwise for index tables, 1e-12 for distances); subset handles are judged on their own face_node table and node coordinates (their faithfulness is C09)",
         "MPAS dual of a partial mesh is not a mesh (open fans, one-ended edges): judged against the source's own cellsOnEdge / verticesOnEdge pairs, node differences not judged",
         "the edge is identified by the grid's own edge_node_connectivity row (that the table is an edge table of the mesh is re-checked here)",
     ]
